@@ -554,9 +554,10 @@ static void judge(vf::Ctx& c, const Args& args, const std::vector<ProbeSpec>& re
 }
 
 // ================================================================ generators
-static const char* GROUPS[] = { "Net", "NetIO", "IONet", "Disk", "Dis", "net" };
-static const char* NAMES[] = { "open", "reopen", "openAll", "close", "clos", "Open", "x1" };
-static const size_t NGROUPS = 6, NNAMES = 7;
+// "NNNet" / "ooopen": substrings such as "NNe" / "oop" occur only inside a failed partial match (self-overlapping prefix)
+static const char* GROUPS[] = { "Net", "NetIO", "IONet", "Disk", "Dis", "net", "NNNet" };
+static const char* NAMES[] = { "open", "reopen", "openAll", "close", "clos", "Open", "x1", "ooopen" };
+static const size_t NGROUPS = sizeof(GROUPS) / sizeof(GROUPS[0]), NNAMES = sizeof(NAMES) / sizeof(NAMES[0]);
 
 static std::vector<ProbeSpec> fixed_registry() {
     std::vector<ProbeSpec> r;
